@@ -37,6 +37,10 @@ CHECKS = {
         technique="deterministic simulation: Set histories with malformed arguments and loader faults at any position vs (config, first-error) model built from the library's own primitives",
         text="Histories of 1..8 (thorough 14) FlagValue.Set calls for key=value flags and file flags (simulated file table behind the FileLoader seam) with option sets drawn from PathSep, VarExp, the five merge policies, a field policy and MetaData; bare keys, empty values, empty keys, malformed values and I/O / nil-config / unknown-extension loader faults at any position, with further arguments after the fault. After every Set: Config() equals the sequential merge with the flag's options, Error() is and stays the first error, String() is the JSON of the accumulated config, the default config is written through.",
         note="The model composes the real NewFrom/Merge/parse.Value: the check decides the refinement statement, not the semantics of the building blocks (those are C01/C17)."),
+    "C09": dict(engine="E4-order", design="6 (C09), 5 (E4)", cat="exploration",
+        technique="deterministic simulation: the simulator owns every map enumeration in the library (AST-inserted seam); the same call is run from identical states under sorted, reversed and tape-drawn orders and the outcomes compared (metamorphic, no model)",
+        text="Each case generates the arguments of one call - NewFrom or Merge on trees whose dictionaries are spelled nested, dotted, partly each, with lists as dotted index keys and (when it is not a known finding) one setting defined twice; or Unpack / FlattenedKeys / CompareConfigs / NewFrom on configs whose settings reference each other through generated expressions, Env configs and resolvers, with at most one failing setting when error kinds are compared - and executes it K=6 (thorough 24) times from identical initial states (the setup is rebuilt under the canonical order) under different enumeration schedules decided at all rewritten range-over-map and MapKeys sites. All outcomes must agree: success vs failure, kind of error (root reason), canonical resulting data, shape of the resulting internal graph.",
+        note="Known finding O21 (an Unpack whose result depends on order when a cycle is absorbed, via the per-call value cache) is not generated while it reproduces. Third-party decoders iterate document order, not maps, and are outside."),
     "C02": dict(engine="E2-varexp", design="6 (C02), 5 (E2)", cat="exploration",
         technique="deterministic simulation of the lookup environment: Env configs, resolver stack with per-read outages and empty answers, values drifting between reads, vs an expression model; expressions generated as trees",
         text="A root config with up to 7 settings (expressions generated as trees over literals, references, nested reference names, default/alternative/error operators and escapes; primitives; containers), 0..2 Env configs and 0..3 resolvers, with per-read resolver outages / empty answers and drift between reads (merge, remove, Env and store changes). Every read (String, typed getters, Child+Unpack, whole-root Unpack, Has, CountField, FlattenedKeys, CompareConfigs; on the root and through child configs) is compared with late-bound substitution in the order root > Env newest-first > resolvers newest-first; unresolvable references must be errors, never empty values.",
@@ -95,7 +99,6 @@ claimed = set(CHECKS)
 PENDING = {
     "C04": "check under construction (engine E3); not claimed until it is registered here",
     "C07": "check under construction (monitors of all engines + E5 lexer schedules); not claimed until it is registered here",
-    "C09": "check under construction (engine E4); not claimed until it is registered here",
     "C11": "check under construction (engine E5); not claimed until it is registered here",
     "C13": "check under construction (engine E3); not claimed until it is registered here",
     "C14": "check under construction (engine E3); not claimed until it is registered here",
